@@ -55,6 +55,12 @@ CLAIMED = {
             "recover planted permutations; correlation index range/zero-iff-equivalent/definition; error metrics vs definitions over "
             "axis arguments; leverage scores a float64 distribution; zero columns rejected. Sampled, R <= 6.",
             "Trusted: exhaustive enumeration of matchings, NumPy definitions.", "DESIGN.md §2 C20"),
+    "C06": ("iterate recorders (deterministic prefix runs + deep-copying callbacks) with from-scratch error recomputation",
+            "For each seeded (algorithm, data class, rank, option set) configuration the real algorithm is run with n_iter_max=1..K, "
+            "once more stopped by its tolerance, and (where offered) with a callback that deep-copies the iterate; every reported "
+            "value is compared (on squares, absolute-value scale) with the independently recomputed error of the iterate it belongs "
+            "to; lists must be prefixes of each other and have one value per sweep. 11 algorithms, orders 2-4, sizes 2-6, ranks 1-3.",
+            "Trusted: independent einsum reconstructions. Masked variants excluded (not in the statement).", "DESIGN.md §2 C06"),
 }
 
 PENDING_REASON = "check not built yet in this session; see DESIGN.md §2 for the planned monitor"
